@@ -220,7 +220,8 @@ PROPS = {
                T("TestC05Tables", Q(40, timeout=300, shrinktime="20s"), Q(200, timeout=900, shards=2, shrinktime="60s")),
                T("TestC05Live", Q(12, timeout=400, shards=4, shrinktime="30s"), Q(80, timeout=1500, shards=8, shrinktime="90s")),
                T("TestC05Handover", Q(60, timeout=400, shrinktime="30s"), Q(400, timeout=1500, shards=6, shrinktime="90s")),
-               T("TestC05Cluster", Q(2, timeout=500, shrinktime="5s"), Q(6, timeout=2400, shards=6, shrinktime="60s"))],
+               T("TestC05Cluster", Q(2, timeout=500, shrinktime="5s"), Q(6, timeout=2400, shards=6, shrinktime="60s")),
+               T("TestC05Recreate", Q(25, timeout=400, shrinktime="20s"), Q(150, timeout=1500, shards=4, shrinktime="60s"))],
         rule="TestC05: a real leader engine and a real follower engine (in-process, single-node clusters) wired like cmd/leader.go / cmd/follower.go with three Log servers (message-size limits 256 B, 4 KiB, 4 MiB; odd shards run "
              "the leader with the log cache on), real Snapshot/Metadata/KV services over loopback gRPC; the replication worker is built by the real factory and stepped by the harness (verif hook). Histories of 3-40 actions: leader put "
              "(values up to 3 KB) / delete / range delete / non-idempotent txn (if ctr==n then ctr:=n+1 else ctr:=0 + range delete), poll(one worker iteration against a drawn Log server, incl. snapshot recovery when the leader answers "
@@ -232,6 +233,7 @@ PROPS = {
              "TestC05Handover: a follower CLUSTER of three nodes (real raft between three engines); the harness decides whose stepped worker polls next (workers never overlap: a lease handed from node to node), one node can be held back (its apply calls take 5-50 ms longer); "
              "after every action, on every node, the node's copy == leader model at the index that copy records, index never backwards; non-trivial iff the polling node changed, >=2 txns, >=2 polls. "
              "TestC05Cluster: the same cluster with three STARTED replication managers (real lease competition, lease handed over by restarting the holder, long lease intervals so that lease timing is not what is tested, control ticker), samplers on every node, judged post hoc. "
+             "TestC05Recreate: the leader table deleted and created again under the same name between polls and reconcile rounds (a recorded finding: the follower never notices; its two signatures are tolerated there and counted as known-finding hits, anything else is reported). "
              "TestC05Live: a started manager on a single follower node (see DESIGN 3b). Distinct = sha256 of case JSON.",
         assumptions=["proposal timeouts are not injected", "after an engine restart one reconcile round is run explicitly (production: 30 s timer)"],
         technique="stateful property-based testing on two real engines with a harness-owned replication schedule, model of the leader's state per revision",
